@@ -1,9 +1,15 @@
 /-
 C13 — bridging lemmas between the regenerated transition table of copy_chars (`NV.Gen.C13.ccTable`, produced by
 running the real function on every byte in every decoder configuration) and the model's `ccByte`.
-Evaluation only (`decide +kernel`: kernel reduction, no axioms beyond the accepted ones).
+Evaluation only (`decide +kernel`: kernel reduction, no axioms beyond the accepted ones), in six chunks
+(TableTie0..5, built in parallel).
 -/
-import NV.C13.Table
+import NV.C13.TableTie0
+import NV.C13.TableTie1
+import NV.C13.TableTie2
+import NV.C13.TableTie3
+import NV.C13.TableTie4
+import NV.C13.TableTie5
 
 namespace NV.C13
 
@@ -12,7 +18,18 @@ open NV.Gen.C13
 /-- for every configuration and every byte the model's step agrees with the real copy_chars in all components:
     next `ip->state` (TS_* code and TS_CR_SEEN), `sb_pos`, iflags, `telnet_sb_lm_mode[4]`, bytes stored through `*to++`,
     bytes sent to the client, every cell of `sb_buf`, callbacks with their arguments -/
-theorem cc_table_tie : tableOk ccTable = true := by decide +kernel
+theorem cc_table_tie : tableOk ccTable = true := by
+  unfold tableOk
+  apply all_of_chunks ccTable cfgOk ccChunk ccChunks (by decide) _ (by decide)
+  intro k hk
+  match k, hk with
+  | 0, _ => exact cc_chunk_0
+  | 1, _ => exact cc_chunk_1
+  | 2, _ => exact cc_chunk_2
+  | 3, _ => exact cc_chunk_3
+  | 4, _ => exact cc_chunk_4
+  | 5, _ => exact cc_chunk_5
+  | k + 6, h => exact absurd h (by unfold ccChunks; omega)
 
 /-- all 16 values of `state & TS_STATE_MASK` × TS_CR_SEEN × SINGLE_CHAR occur as configurations -/
 theorem cc_table_states : tableStates ccTable = true := by decide +kernel
